@@ -17,7 +17,7 @@ ASSUMPTIONS = ["oracle: Python <= on float64 between every recorded argument of 
                "an exception escaping solve is not judged here (C07/C08 do); the calls made before it still are"]
 
 PROF = sc.make_prof(bounds=["box", "box", "lower", "upper", "mixed", "scaled", "scaled"], reg=0.1, zero_resid=0.05,
-                    regression_bias=0.12, opts_list=[0, 0, 0, 0, 0, 1, 1, 2, 3, 4, 5, 6, 7, 8, 9, 12, 13])     # every code path that produces evaluation points gets its share of cases
+                    regression_bias=0.12, nolog=0.05, opts_list=[0, 0, 0, 0, 0, 1, 1, 2, 3, 4, 5, 6, 7, 8, 9, 12, 13])     # every code path that produces evaluation points gets its share of cases
 
 
 def run(case):
